@@ -539,13 +539,17 @@ func (s *Store[H]) flush(ctx context.Context, headers ...H) error {
 	}
 
 	// marshal and add to batch reference to the new head and tail
-	head := *s.contiguousHead.Load()
-	if err := writeHeaderHashTo(ctx, batch, head, headKey); err != nil {
-		return err
+	// the pointers are unset after the whole chain was deleted, while headers
+	// that were never contiguous with it can still await their write
+	if head := s.contiguousHead.Load(); head != nil {
+		if err := writeHeaderHashTo(ctx, batch, *head, headKey); err != nil {
+			return err
+		}
 	}
-	tail := *s.tailHeader.Load()
-	if err := writeHeaderHashTo(ctx, batch, tail, tailKey); err != nil {
-		return err
+	if tail := s.tailHeader.Load(); tail != nil {
+		if err := writeHeaderHashTo(ctx, batch, *tail, tailKey); err != nil {
+			return err
+		}
 	}
 
 	// write height indexes for headers as well
